@@ -148,8 +148,7 @@ impl<'a> RegEq<'a> {
                     // Box is visible only in the recorded type name; it changes the emitted field
                     let bf = f.type_name.as_deref().map(|t| t.contains("Box<")).unwrap_or(false);
                     let bg = g.type_name.as_deref().map(|t| t.contains("Box<")).unwrap_or(false);
-                    let _ = (bf, bg);
-                    self.eq(f.ty.id, g.ty.id)
+                    bf == bg && self.eq(f.ty.id, g.ty.id)
                 }
             })
     }
